@@ -413,11 +413,15 @@ fn export_property(db: &DbIndex, semantic_decl: &LuaSemanticDeclId) -> Property 
 
 fn export_loc_for_type(db: &DbIndex, type_decl: &LuaTypeDecl) -> Vec<Loc> {
     let vfs = db.get_vfs();
-    type_decl
+    let mut locs: Vec<Loc> = type_decl
         .get_locations()
         .iter()
         .filter_map(|loc| export_loc(vfs, loc.file_id, loc.range))
-        .collect()
+        .collect();
+    // the locations of a type declared in several files are kept in the order in which the files
+    // were analysed, which is not fixed: sort so that two exports of one workspace are identical
+    locs.sort_by(|a, b| (&a.file, a.line).cmp(&(&b.file, b.line)));
+    locs
 }
 
 fn export_loc(vfs: &Vfs, file_id: FileId, range: TextRange) -> Option<Loc> {
